@@ -263,7 +263,7 @@ theorem i2b_inv2_announce (j : Job) (cl : Cluster) (s : Sys) (h2 : Inv2 j cl s)
   · intro w t hf; exact h2.flight_queued_or_ran w t ((hfl w t).mp hf)
   · intro w d; exact Nat.le_trans (hsub _) (h2.ev_count w d)
   · intro w d he; exact h2.ev_ran w d (hmem _ he)
-  · intro w d he hl; rw [hfl]; exact h2.ev_last_flight w d (hmem _ he) hl
+  · intro w d he; rw [hfl]; exact h2.ev_flight w d (hmem _ he)
   · intro hx _; exact absurd hp hx
   · intro d t ht hd; simp only [f_done] at hd; simp only [f_ptd, f_pt]; exact h2.ptrack_sound d t ht hd
   · intro d hd
@@ -289,14 +289,14 @@ theorem i2b_inv2_announce (j : Job) (cl : Cluster) (s : Sys) (h2 : Inv2 j cl s)
   · exact h2.no_err_ongoing
   · exact h2.no_err_plan
 
-/-! ### stage 2: the last output of `task` was announced — the task is completed -/
+/-! ### stage 2: the notices of all outputs of `task` have been processed — the task is completed -/
 
 theorem i2b_inv2_complete (j : Job) (cl : Cluster) (s : Sys) (h2 : Inv2 j cl s) (task : Task) (w : Worker)
     (c4 : Ctl) (idle : List Worker) (rem : Nat)
     (htodo : s.todo = [])
     (hfu : (s.ctl.ongoing.map (·.2)).Nodup) (hon : (w, task) ∈ s.ctl.ongoing)
     (hran : s.env.ran task = true) (hdisp : s.ctl.dispatched task = 1)
-    (hev : ∀ w' ds', Event.pubW w' ds' ∈ s.allEv → j.isLast ds' = true → ds'.task ≠ task)
+    (hev : ∀ w' ds', Event.pubW w' ds' ∈ s.allEv → ds'.task ≠ task)
     (hci : completeInputs j task s.ctl (j.inputs task) = .ok c4) :
     Inv2 j cl { s with ctl := { c4 with ongoing := c4.ongoing.erase (w, task), idle := idle, remaining := rem,
                                         doneC := upd c4.doneC task true } } := by
@@ -335,9 +335,9 @@ theorem i2b_inv2_complete (j : Job) (cl : Cluster) (s : Sys) (h2 : Inv2 j cl s) 
   · intro w' t hf; exact h2.flight_queued_or_ran w' t (hfl w' t hf).1
   · exact h2.ev_count
   · exact h2.ev_ran
-  · intro w' d he hl
-    have hf := h2.ev_last_flight w' d he hl
-    have hne := hev w' d he hl
+  · intro w' d he
+    have hf := h2.ev_flight w' d he
+    have hne := hev w' d he
     simp only [Sys.inFlight, Sys.todoPairs, htodo, List.map_nil, List.not_mem_nil, or_false, f_ong] at hf ⊢
     refine (List.mem_erase_of_ne ?_).mpr hf
     intro heq; simp only [Prod.mk.injEq] at heq; exact hne heq.2
